@@ -237,6 +237,9 @@ def check(run):
     engines.dangling_element_refs(run, [f for f in fx.repo_functions() if f.file.startswith(simlib.REPO_PREFIX)])
     import p01 as _p01
     _p01.accept_scratch_rule(run)
+    run.clause('a timer is on the simulation\'s queue exactly while it is marked pending, also after a wait on a cancelled timer (shared with C03)')
+    import p03 as _p03
+    _p03.async_wait_rules(run)
     run.clause('a hop shared by both directions of a link does not crash or spin: the queue tolerates re-entrant delivery (shared with C09)')
     import p09 as _p09
     _p09.reentrancy_rule(run)
@@ -317,6 +320,13 @@ def move_repoints_rule(run, classes):
                               'the move constructor reads s.%s after resetting it at line %s: the value seen is the cleared one, not the state being transferred (a bound socket is treated as unbound, so the registry is not re-pointed and keeps the address of the moved-from object)' % (fld, ev[0].get('l')))
         if not nbad:
             run.ok('R7', 'move-read-after-reset', '%s(&&)' % cls, mv.loc(), 'no field of the source is read after its reset (%d resets, %d reads in the body)' % (sum(len(v) for v in resets.values()), len(reads)))
+        # the forwarder that packets in flight (and routes handed out after a later bind) end in is re-pointed at the new object
+        # whenever there is one - not only when the socket happens to be bound at the time of the move
+        fre = [c for c in mv.calls() if (q.callee_name(c) or '').endswith('sink_forwarder::reset') and c.get('args') and q.is_this(q.strip_casts(c['args'][0]))]
+        okf = bool(fre) and all(all(q.render(mv, a_).replace('this->', '') in ('m_forwarder',) and p_ for a_, p_ in q.guards_at(mv, c)) for c in fre)
+        run.check(okf, 'R7', 'move-repoints-forwarder', '%s(&&)' % cls, mv.loc(fre[0]) if fre else mv.loc(),
+                  'the move constructor re-points the forwarder (m_forwarder->reset(this)) only under a further condition (%s): a socket moved while open but not yet bound keeps a forwarder that delivers to the moved-from object, so after a later bind() every packet for it vanishes (or lands in a destroyed object)'
+                  % ([q.render(mv, a_) for c in fre for a_, p_ in q.guards_at(mv, c)] or 'no such call'), 're-pointed whenever a forwarder exists')
         for c in reb:
             g = q.guards_at(mv, c)
             own = [(q.render(mv, a_), p) for a_, p in g]
